@@ -291,6 +291,9 @@ def install_seams():
         lg.propagate = False
         lg.setLevel(logging.ERROR)
 
+    # generators finalised after their loop was disposed complain on stderr: not our business
+    sys.unraisablehook = lambda unraisable: None
+
     asyncio.set_event_loop_policy(_SimPolicy())
 
     # tornado's IOLoop.time() is time.time(): use the loop's own clock
